@@ -339,9 +339,12 @@ where
             // TODO: maybe dynamic affection range
             let affected_range = this_range.start..(this_range.end + 1);
             if input.token_change.overlaps(&affected_range) {
+                // If this node cannot be rebuilt, the caller has to try again at its first token,
+                // not at the token where the inner parser gave up.
+                let original_input = input.clone();
                 match inner_parser.parse(input) {
                     Ok(result) => Ok(result),
-                    Err(nom::Err::Error(err)) => affected_error(err.input),
+                    Err(nom::Err::Error(_)) => affected_error(original_input),
                     Err(_) => panic!("Incomplete data"),
                 }
             } else if input.location_offset()
